@@ -71,6 +71,15 @@ Proof. exact (fun A D => F.theory_translate_wf A D (reduce_eqs_hold A)). Qed.
 Theorem C05_built_formulas_are_equivalent : forall (A : Type) (h : nat) (T : F.trace A) (p : LDL.path A) (g : F.bf A) (k : nat), k <= h ->
   F.lsat A h T (F.dia_built A p g) k = F.lsat A h T (F.Dia A p g) k /\ F.lsat A h T (F.box_built A p g) k = F.lsat A h T (F.Box A p g) k.
 Proof. exact F.built_valid. Qed.
+(* path expressions are shared through their representation string as well: it is injective on the path expressions of the model (step, test, choice,
+   sequence, iteration, nested), and no formula has the representation of a path expression (Gen/FromReps.v regenerated from theory/path.py, body.py) *)
+Require RepsProofs.
+Theorem C05_path_representation_is_injective : forall p q : RepsProofs.path, RepsProofs.prep p = RepsProofs.prep q -> p = q.
+Proof. exact RepsProofs.prep_injective. Qed.
+Theorem C05_formulas_and_paths_have_different_representations : forall (f : RepsProofs.bf) (p : RepsProofs.path), RepsProofs.rep f <> RepsProofs.prep p.
+Proof. exact RepsProofs.rep_is_not_a_path. Qed.
+Print Assumptions C05_path_representation_is_injective.
+Print Assumptions C05_formulas_and_paths_have_different_representations.
 Print Assumptions C05_diamond.
 Print Assumptions C05_dia_formula.
 Print Assumptions C05_box_formula.
